@@ -138,6 +138,20 @@ impl<'i, 's> LexWith<'i, &FilterParser<'s>> for QuantifierArgExpr {
 
         let actual = arg.get_type();
         if actual == bool_array_type() {
+            // An index expression with map-each accesses evaluates to an array
+            // of its elements (here an array of boolean arrays), which cannot
+            // be reduced to a single boolean.
+            if let Self::IndexExpr(index_expr) = &arg
+                && index_expr.map_each_count() > 0
+            {
+                return Err((
+                    LexErrorKind::TypeMismatch(TypeMismatchError {
+                        expected: bool_array_type().into(),
+                        actual: Type::Array(actual.into()),
+                    }),
+                    span(input, rest),
+                ));
+            }
             Ok((arg, rest))
         } else {
             Err((
